@@ -164,7 +164,7 @@ VP_HARNESS(h_reject_small)
 #elif CLS == 5
     ok = AnalogPayload::isValidPayload(buf, NB); hdr = 16;
 #elif CLS == 6
-    ok = CaptureModulePayload::isValidPayload(buf, NB); hdr = 24 + 10;
+    ok = CaptureModulePayload::isValidPayload(buf, NB); hdr = 26 + 10;
 #elif CLS == 7
     ok = InterfacePayload::isValidPayload(buf, NB); hdr = 36 + 4;
 #endif
